@@ -319,6 +319,6 @@ def run(ctx: core.Ctx) -> None:
         stage_tables(ctx, spec, n_comp=4, n_full=1, stride_full=7)
         stage_sutton(ctx, spec, 200)
     else:
-        stage_facade(ctx, spec, 1000)
+        stage_facade(ctx, spec, 4000)
         stage_tables(ctx, spec, n_comp=30, n_full=16, stride_full=1)
-        stage_sutton(ctx, spec, 10000)
+        stage_sutton(ctx, spec, 40000)
